@@ -355,7 +355,7 @@ impl<W: Write> Print<W> for JsonOutputOptions {
                 '\r' => write!(f, "\\r")?,
                 '\t' => write!(f, "\\t")?,
                 ch => {
-                    if self.utf8_strings || (' '..='~').contains(&ch) {
+                    if (self.utf8_strings && ch >= ' ') || (' '..='~').contains(&ch) {
                         write!(f, "{ch}")?;
                     } else {
                         write!(f, "\\u{:04x}", ch as u64)?;
